@@ -63,6 +63,8 @@ def species(draw):
         A = int(draw(st.sampled_from(sorted(PT_DATA[el][1].keys(), key=int))))
     if form in ("isoq", "q"):
         q = draw(st.sampled_from([-3, -2, -1, 1, 2, 3]))
+        if ELEMENTS.index(el) >= 25 and draw(st.integers(0, 3)) == 0:
+            q = draw(st.sampled_from([10, 12, -10, 15, 21]))        # charge numbers of two digits (highly stripped ions)
         qs = "num"
     elif form == "sign":
         q = draw(st.sampled_from([-1, 1]))
